@@ -3,6 +3,7 @@
 Scenario IR (JSON-able):
   {"inputs": [[op...], ...], "runs": [exp...], "fam": family tag}
   op  := ["t", name, supertype] | ["f", domain, feature, range, element|None]     (public API: create_type / create_feature)
+         | ["nodoc"] as the first op: the input starts as TypeSystem(add_document_annotation_type=False)
   exp := [item...] meaning merge_typesystems(*items); item := int (input number, built fresh for every call) | exp
 The first run is the tuple in the given order; the others are its permutations and groupings.
 """
@@ -18,8 +19,10 @@ PROPS_FILE = "Props/C13.v"
 CORR_IMPORTS = "Base TS Merge CorrC13"
 OPEN_SCOPES = []
 ENTRY = "cassis.typesystem.merge_typesystems"
-CASES_PER_SHARD = 250
-SHARD_BYTES = 160_000
+CASE_TIMEOUT_S = 5
+SEARCH_BUDGET_S = 60
+CASES_PER_SHARD = 60
+SHARD_BYTES = 60_000
 RULE = (
     "quick: every unordered pair (both argument orders as two runs of one case) of the type systems over the pool "
     "{my.pkg.Token, Token, a.B} with supertypes among {Annotation, the other pool names} (hierarchy only), a structured family of "
@@ -63,8 +66,10 @@ for _dom, _n, _r, _e, _m in BUILTIN_FEATURES:
 # ---------------------------------------------------------------------------------------------- scenario helpers
 def decls_of(ops):
     """user declarations of one input: name -> [supertype, {feature: (range, element or TOP)}] (DocumentAnnotation included)"""
-    d = {DOC: [ANN, {"language": (STR, TOP)}]}
+    d = {} if (ops and ops[0][0] == "nodoc") else {DOC: [ANN, {"language": (STR, TOP)}]}
     for op in ops:
+        if op[0] == "nodoc":
+            continue
         if op[0] == "t":
             d[op[1]] = [op[2], {}]
         else:
@@ -80,6 +85,8 @@ def items_of(exp):
 
 
 def perms_and_groupings(n):
+    if n == 0:
+        return [[]]
     runs = [list(p) for p in itertools.permutations(range(n))]
     if n == 3:
         runs += [[[0, 1], 2], [0, [1, 2]], [[0, 2], 1]]
@@ -132,7 +139,10 @@ def hier_family(pool, extra_parents, feats=((),)):
             order = dep_order(decl, pool)
             if order is None:
                 continue
-            fam.append(ops_from_decl(decl, order))
+            drop_internal_conflicts(decl)
+            ops = ops_from_decl(decl, order)
+            if ops not in fam:
+                fam.append(ops)
     return fam
 
 
@@ -244,18 +254,34 @@ def rand_case(rng, pool, n_inputs):
     return None
 
 
-def _case(inputs, fam):
-    return {"inputs": inputs, "runs": perms_and_groupings(len(inputs)), "fam": fam}
+def _case(inputs, fam, coq=True):
+    return {"inputs": inputs, "runs": perms_and_groupings(len(inputs)), "fam": fam, "coq": bool(coq)}
+
+
+# share of the cases of each family that is also evaluated inside Coq in the quick tier (the model costs ~0.15 s of
+# vm_compute per merge call: Coq strings); the implementation and the oracle run on every case; thorough renders far more
+QUICK_COQ = {"hier3": 0.3, "chain": 0.35, "rand2": 0.38, "rand3": 0.25}
 
 
 def generate(rng, tier):
+    def coq(fam_name):
+        return tier != "quick" or rng.random() < QUICK_COQ[fam_name]
+
     if tier in ("quick", "thorough"):
         fam = hier_family(P3, [ANN])
         for i in range(len(fam)):
             for j in range(i, len(fam)):
-                yield _case([fam[i], fam[j]], "hier3")
+                yield _case([fam[i], fam[j]], "hier3", coq("hier3"))
         for pair in chain_family():
-            yield _case(pair, "chain")
+            yield _case(pair, "chain", coq("chain"))
+        # no input with a user type (13b42b8): no arguments, empty systems with and without DocumentAnnotation
+        yield _case([], "named")
+        yield _case([[["nodoc"]]], "named")
+        yield _case([[["nodoc"]], [["nodoc"]]], "named")
+        yield _case([[["nodoc"]], []], "named")
+        yield _case([[]], "named")
+        yield _case([[["nodoc"], ["t", "a.B", ANN]], [["nodoc"]]], "named")
+        yield _case([[["nodoc"], ["t", "a.B", ANN], ["f", "a.B", "f", STR, None]], [["t", "a.B", TOP]], [["nodoc"]]], "named")
         # the shapes named in the property / the defect reports
         yield _case([[["t", "a.A", ANN], ["t", "a.B", "a.A"]], [["t", "a.B", ANN], ["t", "a.A", "a.B"]]], "named")
         yield _case([[["t", "my.pkg.Token", ANN]], [["t", "Token", ANN], ["t", "a.B", "Token"]]], "named")
@@ -272,15 +298,21 @@ def generate(rng, tier):
             inputs[rng.randrange(len(inputs))] = []
         if r % 19 == 0:
             inputs[-1] = json.loads(json.dumps(inputs[0]))
-        yield _case(inputs, "rand%d" % n_inputs)
+        if r % 23 == 0:
+            k = rng.randrange(len(inputs))
+            if not any(op[1] == DOC for op in inputs[k] if op[0] == "f"):
+                inputs[k] = [["nodoc"]] + inputs[k]
+        yield _case(inputs, "rand%d" % n_inputs, coq("rand%d" % n_inputs) if tier == "quick" else (tier == "thorough" and r % 4 == 0))
     if tier == "thorough":
         fam = hier_family(P3, [ANN, TOP], feats=((), (("f", STR, None),), (("f", INT, None),)))
-        for _ in range(4000):
-            yield _case([rng.choice(fam), rng.choice(fam)], "hier3f")
+        for k in range(4000):
+            yield _case([rng.choice(fam), rng.choice(fam)], "hier3f", k % 6 == 0)
         small = hier_family(P3[:2] + ["a.B"], [ANN])
         small = [s for s in small if len(s) <= 2]
+        k = 0
         for a, b, c in itertools.combinations_with_replacement(range(len(small)), 3):
-            yield _case([small[a], small[b], small[c]], "triple")
+            k += 1
+            yield _case([small[a], small[b], small[c]], "triple", k % 9 == 0)
 
 
 # ---------------------------------------------------------------------------------------------- implementation driver
@@ -289,9 +321,10 @@ class InvalidScenario(BaseException):
 
 
 def build(cassis, ops):
-    ts = cassis.TypeSystem()
+    nodoc = bool(ops) and ops[0][0] == "nodoc"
+    ts = cassis.TypeSystem(add_document_annotation_type=False) if nodoc else cassis.TypeSystem()
     try:
-        for op in ops:
+        for op in ops[1:] if nodoc else ops:
             if op[0] == "t":
                 ts.create_type(op[1], op[2])
             else:
@@ -443,11 +476,22 @@ def observe_run(cassis, sc, exp):
     return out
 
 
+_HUNG = {"n": 0}
+
+
 def run_impl(cassis, sc):
+    # a merge that does not return (a cyclic hierarchy makes Type.subsumes loop) costs a full CASE_TIMEOUT_S: after a few
+    # of them the remaining cases are failed at once instead of waiting for each
+    if _HUNG["n"] >= 3:
+        raise RuntimeError("merge_typesystems did not return on earlier cases of this run; case not executed")
     try:
         return {"runs": [observe_run(cassis, sc, exp) for exp in sc["runs"]]}
     except InvalidScenario as e:
         raise RuntimeError(str(e))
+    except BaseException as e:  # noqa
+        if type(e).__name__ == "CaseTimeout":
+            _HUNG["n"] += 1
+        raise
 
 
 # ---------------------------------------------------------------------------------------------- oracle
@@ -497,6 +541,9 @@ def side_condition(sc):
 def spec(sc):
     """the merge rules applied to the union of all declarations: ("err", why) | ("ok", {name: (supertype, {feature: (range, elem)})})"""
     sups, own = union_decls(sc)
+    if DOC not in sups:
+        sups[DOC] = [ANN]
+        own[DOC] = {"language": {(STR, TOP)}}
     final = {}
     for n, ss in sups.items():
         if n in reach(sups, n):
@@ -538,6 +585,9 @@ def check_result(sc, run, exp):
     for n in sups:
         if n not in rows:
             return f"type {n} declared by an input is missing from the result"
+    if DOC not in sups:      # no input carries DocumentAnnotation: the result does (TypeSystem()), with its default declaration
+        sups[DOC] = [ANN]
+        own[DOC] = {"language": {(STR, TOP)}}
     for n in rows:
         if n not in sups:
             return f"result contains {n} which no input declares"
@@ -637,9 +687,10 @@ def oracle(cassis, sc, obs):
             if want != got:
                 return f"result under the side condition differs from the merge rules: expected {want} got {got}"
     # merging with itself or with an empty type system changes nothing
-    nonempty = [ops for ops in sc["inputs"] if ops]
-    if nonempty and all(ops == nonempty[0] for ops in nonempty):
-        d = decls_of(nonempty[0])
+    nonempty = [ops for ops in sc["inputs"] if ops and ops != [["nodoc"]]]
+    if all(ops == nonempty[0] for ops in nonempty):
+        d = decls_of(nonempty[0]) if nonempty else {}
+        d.setdefault(DOC, [ANN, {}])
         for exp, run in zip(sc["runs"], runs):
             if not run["ok"]:
                 return f"merge {exp} of a type system with itself / with empty type systems raised"
@@ -706,7 +757,10 @@ def gobs(run):
 
 
 def render(sc, obs):
-    ins = glist([glist([gop(op) for op in ops]) for ops in sc["inputs"]])
+    if not sc.get("coq", True):
+        return None
+    ins = glist([("Ind " + glist([gop(op) for op in ops[1:]])) if (ops and ops[0][0] == "nodoc") else ("I " + glist([gop(op) for op in ops]))
+                 for ops in sc["inputs"]])
     table, runs = [], []
     for e, r in zip(sc["runs"], obs["runs"]):
         t = gobs(r)
